@@ -213,7 +213,9 @@ Inductive cres := CSlot | CBar | CMulti | CStop.
 Inductive caction :=
 | CAcq (c : cres) | CRel (c : cres) | CWaitRel (c : cres)
 | CSetStop | CNotify | CSpawn | CJoin
-| CCallback              (* user closure / ProgressTracker / TermLike: must not re-enter *)
+| CCallback              (* user closure / ProgressTracker call sites (update/suspend closures, tracker
+                            tick/reset, format_state): must not re-enter.  TermLike / Write calls made by the
+                            draw under the Multi or Bar lock are NOT marked individually (same proviso) *)
 | CTick                  (* BarState::tick: spinner tick + 1 *)
 | CUpgrade | CDropArc.   (* Weak::upgrade / drop of an Arc<Mutex<BarState>> *)
 
